@@ -7,26 +7,45 @@ pub use ::std::{
 
 pub mod time {
     pub use ::std::time::Duration;
-    /// model clock in ms since the epoch; only ever moved forward by harnesses
-    pub static mut CLOCK_MS: u64 = 0;
+    /// model clock = (seconds, nanoseconds) since the epoch; only ever moved forward by harnesses.
+    /// Kept in parts so that `now().duration_since(UNIX_EPOCH)` is built without a division (a
+    /// symbolic ms clock forces the SAT back end to prove as_millis(from_millis(x)) == x).
+    pub static mut CLOCK_S: u64 = 0;
+    pub static mut CLOCK_NS: u32 = 0;
     pub fn set_clock(ms: u64) {
-        unsafe { CLOCK_MS = ms }
+        unsafe {
+            CLOCK_S = ms / 1000;
+            CLOCK_NS = ((ms % 1000) as u32) * 1_000_000;
+        }
     }
+    pub fn set_clock_parts(secs: u64, nanos: u32) {
+        unsafe {
+            CLOCK_S = secs;
+            CLOCK_NS = nanos;
+        }
+    }
+    /// the clock in ms (what the id generator stamps into ids)
     pub fn clock() -> u64 {
-        unsafe { CLOCK_MS }
+        unsafe { CLOCK_S.wrapping_mul(1000).wrapping_add((CLOCK_NS / 1_000_000) as u64) }
     }
-    #[derive(Clone, Copy, PartialEq, Eq, PartialOrd, Ord, Debug)]
-    pub struct SystemTime(pub u64);
-    pub const UNIX_EPOCH: SystemTime = SystemTime(0);
+    #[derive(Clone, Copy, PartialEq, Eq, Debug)]
+    pub struct SystemTime {
+        pub secs: u64,
+        pub nanos: u32,
+    }
+    pub const UNIX_EPOCH: SystemTime = SystemTime { secs: 0, nanos: 0 };
     #[derive(Debug)]
     pub struct SystemTimeError;
     impl SystemTime {
         pub fn now() -> SystemTime {
-            SystemTime(clock())
+            unsafe { SystemTime { secs: CLOCK_S, nanos: CLOCK_NS } }
         }
         pub fn duration_since(&self, earlier: SystemTime) -> Result<Duration, SystemTimeError> {
-            if self.0 >= earlier.0 {
-                Ok(Duration::from_millis(self.0 - earlier.0))
+            if earlier.secs == 0 && earlier.nanos == 0 {
+                return Ok(Duration::new(self.secs, self.nanos));
+            }
+            if (self.secs, self.nanos) >= (earlier.secs, earlier.nanos) {
+                Ok(Duration::new(self.secs, self.nanos) - Duration::new(earlier.secs, earlier.nanos))
             } else {
                 Err(SystemTimeError)
             }
